@@ -16,6 +16,8 @@ func Stub_fmt_Errorf(format string, a ...any) error { return &StubError{format} 
 
 func Stub_fmt_Sprintf(format string, a ...any) string { return format }
 
+func Stub_log_Printf(format string, a ...any) {}
+
 func Stub_sort_Strings(x []string) {
 	for i := 1; i < len(x); i++ {
 		for j := i; j > 0 && x[j] < x[j-1]; j-- {
